@@ -2,6 +2,6 @@
 from specs import snapshot
 
 LEVEL = 'proof'
-UNITS = [snapshot.chunk_done_unit('C01')]
+UNITS = [snapshot.chunk_done_unit('C01'), snapshot.stream_unit('C01')]
 TRUSTED = []
 ASSUMPTIONS = []
